@@ -57,7 +57,7 @@ impl Prop for C07 {
     fn rule() -> String {
         "Histories of set_message / delete_message / has_message / get_message / set_title / set(k, get(k)) / serialize+re-parse / parse of a file written by the harness's own text-archive writer (optionally with a duplicated key) starting from an empty archive are applied to the real archive and to an ordered-list model \
          (set replaces in place or appends, delete removes in place, stored text = input with backslash-n sequences turned into newlines, lookup = stored text with every newline escaped). After EVERY step: get_entries keys \
-         in model order with the stored values, has_message and get_message for every key of the alphabet, the dirty flag (clear on a new and on a parsed archive, set after any set, unchanged by get/has/delete/set_title), set(k, get(k)) changes nothing. \
+         in model order with the stored values, has_message and get_message for every key of the alphabet, the dirty flag (clear on a new and on a parsed archive, set after any set, never cleared, never raised by lookups), set(k, get(k)) changes nothing. \
          Bounded-exhaustive: all histories of length <= 4 (quick) / 5 (thorough) over 26 operations (3 keys x 6 messages mixing escape sequences, real newlines, double backslashes and trailing backslashes; delete; resave; re-parse; parse of a harness-written file in which the first key also labels a second message); random: 30 keys, messages over \
          {letters, newline, backslash, n, CR, CJK}, <= 60 operations. Non-trivial: the history deletes a present key that is not the last one and sets a key afterwards, or stores a message holding both an escape sequence and a real newline, or sets on a parsed archive. Distinct = distinct case value."
             .into()
@@ -270,6 +270,8 @@ impl Prop for C07 {
                     for (k, v) in &model {
                         put(&mut data, k, v);
                     }
+                    let before_foreign = model.clone();
+                    let labels_dup = dup.is_some() && !model.is_empty();
                     if let (Some(sel), false) = (dup, model.is_empty()) {
                         let i = (*sel as usize * model.len()) >> 16;
                         let k = model[i].0.clone();
@@ -281,17 +283,29 @@ impl Prop for C07 {
                     }
                     let content = crate::gen::archive::ArchiveContent { big_endian: false, data, cells: Default::default(), labels };
                     let bytes = crate::refimpl::refbin::write_canonical(&content, None);
-                    t = match cx.call(|| TextArchive::from_bytes(&bytes, TextArchiveFormat::Unicode, Endian::Little)) {
-                        Some(Ok(r)) => r,
+                    let has_dup = matches!((dup, labels_dup), (Some(_), true));
+                    match cx.call(|| TextArchive::from_bytes(&bytes, TextArchiveFormat::Unicode, Endian::Little)) {
+                        Some(Ok(r)) => {
+                            t = r;
+                            dirty = false;
+                            parsed = true;
+                            cx.label("parsed-foreign-file");
+                            if has_dup {
+                                // what a duplicated key means is not stated: adopt the parser's reading of the file
+                                model = t.get_entries().iter().map(|(a, b)| (a.clone(), b.clone())).collect();
+                            }
+                        }
                         Some(Err(e)) => {
-                            cx.fail("reparse-ok", format!("{name}: a conforming text-archive file written by the harness was rejected: {e}"));
-                            return;
+                            // a file in which one key labels two messages may be rejected; a file with distinct keys may not
+                            if !has_dup {
+                                cx.fail("reparse-ok", format!("{name}: a conforming text-archive file written by the harness was rejected: {e}"));
+                                return;
+                            }
+                            model = before_foreign;
+                            cx.label("foreign-file-with-duplicate-key-rejected");
                         }
                         None => return,
-                    };
-                    dirty = false;
-                    parsed = true;
-                    cx.label("parsed-foreign-file");
+                    }
                 }
             }
             // full comparison after every step
@@ -308,6 +322,11 @@ impl Prop for C07 {
                 if !cx.check(t.has_message(k) == want.is_some(), "has-message", || format!("{name}: has_message({k:?}) = {}", t.has_message(k))) {
                     return;
                 }
+            }
+            // "clear on a new or parsed archive and set after any set": other modifications (delete, set_title) may raise it too,
+            // lookups may not, and nothing may clear it
+            if !dirty && t.is_dirty() && matches!(op, Op::Delete(_) | Op::SetTitle(_)) {
+                dirty = true;
             }
             if !cx.check(t.is_dirty() == dirty, "dirty-flag", || format!("{name}: is_dirty() = {}, expected {dirty}", t.is_dirty())) {
                 return;
